@@ -4,6 +4,8 @@ mod alloc;
 mod checks;
 mod circuits;
 mod exec;
+mod explore;
+mod monitors;
 mod hooks;
 mod mpcrun;
 mod schema;
